@@ -132,7 +132,12 @@ func (s *SwapStateMachine) WaitForStateChange(isDesiredState func(StateType) boo
 			select {
 			case <-unlockCh:
 			case <-timeoutCh:
+				// The waiter holds the mutex until it sleeps in Wait: taking
+				// it here makes sure the wake-up is not sent before the
+				// waiter can hear it.
+				s.stateMutex.Lock()
 				timedOut = true
+				s.stateMutex.Unlock()
 				s.stateChange.Broadcast()
 			}
 		}()
